@@ -501,17 +501,47 @@ theorem fromSan_spell (T : Tables) (b : Board) (m : Move) (d : Disamb) (sfx : Su
     (fun x hx hbx => hu x hx (agrees_of_baseMatch b ha pc col m x d epMark hb hbx))
 
 theorem fromSan_castle_short (T : Tables) (b : Board) (sfx : Suffix)
+    (hk : b.pieceOn (mkSq b.stm.backrank 4) = some .king)
     (hm : (⟨mkSq b.stm.backrank 4, mkSq b.stm.backrank 6, none⟩ : Move) ∈ b.legalMoves T) :
     fromSan T b ("O-O".toList ++ suffixText sfx) = .ok ⟨mkSq b.stm.backrank 4, mkSq b.stm.backrank 6, none⟩ := by
   unfold fromSan
-  simp only [castleText_short, true_or, if_true, List.contains_iff_mem.2 hm]
+  simp only [castleText_short, true_or, if_true, List.contains_iff_mem.2 hm, hk, beq_self_eq_true,
+    Bool.and_self]
 
 theorem fromSan_castle_long (T : Tables) (b : Board) (sfx : Suffix)
+    (hk : b.pieceOn (mkSq b.stm.backrank 4) = some .king)
     (hm : (⟨mkSq b.stm.backrank 4, mkSq b.stm.backrank 2, none⟩ : Move) ∈ b.legalMoves T) :
     fromSan T b ("O-O-O".toList ++ suffixText sfx) = .ok ⟨mkSq b.stm.backrank 4, mkSq b.stm.backrank 2, none⟩ := by
   unfold fromSan
   have h : ¬ ("O-O-O".toList = "O-O".toList) := by decide
-  simp only [castleText_long, or_true, if_true, if_neg h, List.contains_iff_mem.2 hm]
+  simp only [castleText_long, or_true, if_true, if_neg h, List.contains_iff_mem.2 hm, hk,
+    beq_self_eq_true, Bool.and_self]
+
+/-- what the castling branch of `from_san` accepts: exactly the generated move from the e-file home square
+two files to the right / left, and only when the man on that square is the king -/
+theorem fromSan_castle_ok_iff (T : Tables) (b : Board) (s : List Char) (m : Move)
+    (hc : castleText s = "O-O".toList ∨ castleText s = "O-O-O".toList) :
+    fromSan T b s = .ok m ↔
+      (b.pieceOn m.src = some .king ∧ m ∈ b.legalMoves T ∧
+        m = ⟨mkSq b.stm.backrank 4,
+             mkSq b.stm.backrank (if castleText s = "O-O".toList then 6 else 2), none⟩) := by
+  have aux : ∀ (c : Bool) (x : Move),
+      ((if c = true then Res.ok x else Res.err) = Res.ok m) ↔ (c = true ∧ m = x) := by
+    intro c x
+    cases c
+    · simp
+    · simp only [if_true, true_and, Res.ok.injEq]
+      exact eq_comm
+  unfold fromSan
+  simp only [if_pos hc]
+  rw [aux, Bool.and_eq_true, beq_iff_eq, List.contains_iff_mem]
+  constructor
+  · rintro ⟨⟨hk, hm⟩, he⟩
+    subst he
+    exact ⟨hk, hm, rfl⟩
+  · rintro ⟨hk, hm, he⟩
+    subst he
+    exact ⟨⟨hk, hm⟩, rfl⟩
 
 theorem agree_of_struct {b : Board} (h : Struct b) : Agree b := by
   intro s
@@ -616,17 +646,22 @@ theorem fromSan_rejects_ambiguous (T : Tables) (b : Board) (s : List Char) (f : 
     (fun x _ y _ hx hy => takesSkip_uniform b f hu hx hy) with h | h <;>
   · rw [h] at hl; cases hl
 
-/-- castling text when the castling move is not among the generated moves -/
+/-- castling text when the castling move is not among the generated moves, or the e-file home square does
+not hold the king -/
 theorem fromSan_rejects_castle (T : Tables) (b : Board) (s : List Char)
     (hc : castleText s = "O-O".toList ∨ castleText s = "O-O-O".toList)
     (hn : (⟨mkSq b.stm.backrank 4, mkSq b.stm.backrank (if castleText s = "O-O".toList then 6 else 2), none⟩ : Move)
-      ∉ b.legalMoves T) :
+        ∉ b.legalMoves T ∨
+      b.pieceOn (mkSq b.stm.backrank 4) ≠ some .king) :
     fromSan T b s = .err := by
   unfold fromSan
   simp only [if_pos hc]
   rw [if_neg]
   intro h
-  exact hn (List.contains_iff_mem.1 h)
+  rw [Bool.and_eq_true, beq_iff_eq] at h
+  rcases hn with hn | hn
+  · exact hn (List.contains_iff_mem.1 h.2)
+  · exact hn h.1
 
 /-! ### against FIDE legality (needs C01 for the board at hand) -/
 
@@ -729,6 +764,40 @@ theorem castle_shape {p : Pos} {m : Move} (hl : pseudoLegal p m = true) (hc : is
         cases p.stm <;> intro h1 <;> simp only [Color.homeRank, Color.backrank, mkSq] at h1 ⊢ <;> omega
       rw [← hd, ← hs]
 
+/-- a castling move of the specification starts on a square where the board reports a king -/
+theorem pieceOn_king_of_isCastle {b : Board} (ha : Agree b) {m : Move} (hc : isCastle b.abs m = true) :
+    b.pieceOn m.src = some .king := by
+  unfold isCastle at hc
+  rw [ha m.src]
+  cases hb : b.abs.board m.src with
+  | none => rw [hb] at hc; cases hc
+  | some x =>
+    obtain ⟨pc, c'⟩ := x
+    rw [hb] at hc
+    cases pc <;> simp only [Bool.false_and, Bool.false_eq_true] at hc
+    rfl
+
+/-- a move of the king from the e-file to the g- or c-file is a castling move of the specification -/
+theorem isCastle_of_pieceOn_king {b : Board} (ha : Agree b) (r : Fin 8) (long : Bool)
+    (hk : b.pieceOn (mkSq r 4) = some .king) :
+    isCastle b.abs ⟨mkSq r 4, mkSq r (if long then 2 else 6), none⟩ = true := by
+  unfold isCastle
+  rw [ha] at hk
+  cases hb : b.abs.board (mkSq r 4) with
+  | none => rw [hb] at hk; cases hk
+  | some x =>
+    obtain ⟨pc, c'⟩ := x
+    rw [hb] at hk
+    simp only [Option.map_some, Option.some.injEq] at hk
+    subst hk
+    simp only [Bool.true_and, beq_iff_eq]
+    clear hb
+    revert r
+    cases long <;> decide
+
+theorem castle_file_short : ∀ r : Fin 8, (mkSq r 6).file > (mkSq r 4).file := by decide
+theorem castle_file_long : ∀ r : Fin 8, ¬ (mkSq r 2).file > (mkSq r 4).file := by decide
+
 /-- "the generated moves are the FIDE-legal moves, each once" (the conclusion of C01) for this board -/
 def GenExact (T : Tables) (b : Board) : Prop :=
   (b.legalMoves T).Nodup ∧ ∀ m, m ∈ b.legalMoves T ↔ (legal b.abs m = true ∧ m ∈ candidates b.abs)
@@ -744,15 +813,18 @@ theorem fromSan_complete_of_genExact (T : Tables) (b : Board) (ha : Agree b) (hg
     exact hleg.1
   rcases hcase with ⟨hc, sfx, hs⟩ | ⟨hc, d, sfx, ep, hun, _, _, hs⟩
   · have hshape := castle_shape hpl hc
+    have hk := pieceOn_king_of_isCastle ha hc
     by_cases hgt : m.dst.file > m.src.file
     · simp only [if_pos hgt] at hshape hs
       subst hs
-      have h2 := fromSan_castle_short T b sfx (by rw [hshape] at hm; exact hm)
+      have h2 := fromSan_castle_short T b sfx (by rw [hshape] at hk; exact hk)
+        (by rw [hshape] at hm; exact hm)
       rw [hshape]
       exact h2
     · simp only [if_neg hgt] at hshape hs
       subst hs
-      have h2 := fromSan_castle_long T b sfx (by rw [hshape] at hm; exact hm)
+      have h2 := fromSan_castle_long T b sfx (by rw [hshape] at hk; exact hk)
+        (by rw [hshape] at hm; exact hm)
       rw [hshape]
       exact h2
   · subst hs
